@@ -176,6 +176,21 @@ def _impl(sc):
         except Exception as e:
             out['load'] = 'error'
             out['load_exc'] = type(e).__name__ + ': ' + str(e)[:120]
+        if out['load'] == 'ok':
+            # every file produced by dump() is accepted (header, whole document, scan)
+            try:
+                g = d / 'dumped.xml'
+                lmf.dump(r, g)
+                stage = 'is_lmf'
+                out['dump'] = 'ok' if lmf.is_lmf(g) else 'is_lmf false'
+                stage = 'load'
+                r2 = lmf.load(g, progress_handler=None)
+                stage = 'scan'
+                lmf.scan_lexicons(g)
+                if [(x['id'], x['version']) for x in r2['lexicons']] != [(x['id'], x['version']) for x in r['lexicons']]:
+                    out['dump'] = 'reload lists other lexicons'
+            except Exception as e:
+                out['dump'] = f'{stage if "stage" in dir() else "dump"}: {type(e).__name__}: {str(e)[:100]}'
         out['is_lmf'] = lmf.is_lmf(f)
         try:
             infos = lmf.scan_lexicons(f)
@@ -254,6 +269,8 @@ def judge(ctx, sc, im, mo):
             ctx.fail('is_lmf-true-for-an-accepted-header', small, {})
         if im['add'] != 'ok':
             ctx.fail('valid-document-is-accepted-by-add', small, {'error': im.get('add_exc')})
+        if im.get('dump') != 'ok':
+            ctx.fail('every-file-produced-by-dump-is-accepted', small, {'dump': im.get('dump')})
         # scan agrees with load
         if im['scan'] == 'error':
             ctx.fail('scan_lexicons-succeeds-on-a-valid-document', small, {'exc': im.get('scan_exc')})
